@@ -14,7 +14,11 @@ import c04
 from common import log
 
 NS = [4, 16, 64, 256]
-DEN = 512
+# tolerance of the variational inequality <x0 - p, y - p> <= VTOL * scale^2: measured on the unchanged tree the left side
+# is below 1e-6 * scale^2 for the converged PWL projection and the fixed-point rounding contributes about 3e-3 * scale
+VTOL = 0.004
+DEN = 2048          # Conv events (values within +-2): products stay far below 2^31
+PDEN = 4096         # PwlConv events (values within +-3)
 
 
 def dyk_kwargs(c):
@@ -64,8 +68,8 @@ def conv_event(tf, tfl, c, K):
     scale = max(1.0, float(np.abs(K[:, u]).max()))
     ev = {"ev": "Conv", "cfg": c, "den": DEN, "w0": ints(K[:, u]), "ns": NS,
           "ws": [ints(r[:, u]) for r in res], "rp": ints(rp[:, u]), "strictw": ints(strictw[:, u]),
-          "nearest": nearest, "tolu": 3, "ctol": max(3, int(DEN * scale / 128)),
-          "vtol": int(0.02 * DEN * DEN * scale * scale), "stol": max(4, int(DEN * scale / 32)),
+          "nearest": nearest, "tolu": 3 * DEN // 512, "ctol": max(3 * DEN // 512, int(DEN * scale / 128)),
+          "vtol": int(VTOL * DEN * DEN * scale * scale), "stol": max(4 * DEN // 512, int(DEN * scale / 32)),
           "test": [-1, 0, 1],
           "site": {"layer": "lattice", "ev": "Conv"},
           "call": {"path": "Conv", "cfg": c, "w0": [float(v) for v in K[:, u]]}}
@@ -87,6 +91,32 @@ def conv_cfgs(ctx, files, rng):
       cfgs.append(c)
   rng.shuffle(cfgs)
   cfgs = cfgs[:14 if ctx.quick else 120]
+  # every family on the two asymmetric shapes, in both roles and directions: the group schedules (parities, skip
+  # conditions of size-2 dimensions) depend on which dimension is the long one
+  for sizes in ([2, 3], [3, 2]):
+    for m, cd in ((1, 2), (2, 1)):
+      for direction in (1, -1):
+        for fam in ("edge", "trap"):
+          c = latcfg.base(sizes)
+          c["mono"][m - 1] = 1
+          c[fam] = [[m, cd, direction]]
+          c.update({"iters": 1, "strict": False})
+          cfgs.append(c)
+      for fam in ("mdom", "jmono"):
+        c = latcfg.base(sizes)
+        c["mono"] = [1, 1] if fam == "mdom" else [0, 0]
+        c[fam] = [[m, cd]]
+        c.update({"iters": 1, "strict": False})
+        cfgs.append(c)
+    c = latcfg.base(sizes)
+    c["mono"] = [1, 1]
+    c.update({"iters": 1, "strict": False})
+    cfgs.append(c)
+    c = latcfg.base(sizes)
+    c["uni"] = [(-1 if s == 3 else 0) for s in sizes]
+    c["mono"] = [(1 if s == 2 else 0) for s in sizes]
+    c.update({"iters": 1, "strict": False})
+    cfgs.append(c)
   # random family mixes on small lattices
   n = 6 if ctx.quick else 80
   while n > 0:
@@ -106,15 +136,24 @@ def pwl_events(tf, ctx, rng, n):
     minT, maxT = str(rng.choice(["N", "B", "C"])), str(rng.choice(["N", "B", "C"]))
     if minT == "N" and maxT == "N":
       maxT = "B"
+    if len(evs) % 3 == 0:
+      minT, maxT = "B", "B"
     hi = int(rng.choice([1, 2]))
     c = {"mono": mono, "conv": 0, "minT": minT, "maxT": maxT, "omin": [0, 1], "omax": [hi, 1],
          "len": [[1, 1]] * (nk - 1), "iters": 300}
     K = (rng.integers(-3 * 64, 3 * 64 + 1, size=(nk, 6)) / 64.0).astype(np.float32)
+    # two columns on which both bounds are active at once (the first output beyond one bound, the last beyond the
+    # other): the joint bound/monotonicity projection has a branch of its own for this case
+    for u in (0, 1):
+      steps = np.abs(rng.integers(32, 3 * 64 + 1, size=nk - 1)) / 64.0 + (hi + 1.0) / (nk - 1)
+      first = -float(rng.integers(8, 64)) / 64.0 if mono == 1 else hi + float(rng.integers(8, 64)) / 64.0
+      K[0, u] = first
+      K[1:, u] = mono * steps
     out = c04.run_constraint(tf, c, K)
     for u in range(K.shape[1]):
       scale = max(1.0, float(np.abs(K[:, u]).max()))
-      evs.append({"ev": "PwlConv", "cfg": c, "den": DEN, "w0": ints(K[:, u]), "w": ints(out[:, u]),
-                  "vtol": int(0.02 * DEN * DEN * scale * scale), "test": list(range(-hi - 1, hi + 2)),
+      evs.append({"ev": "PwlConv", "cfg": c, "den": PDEN, "w0": ints(K[:, u], PDEN), "w": ints(out[:, u], PDEN),
+                  "vtol": int(VTOL * PDEN * PDEN * scale * scale), "test": list(range(-hi - 1, hi + 2)),
                   "site": {"layer": "pwl", "ev": "PwlConv"},
                   "call": {"path": "PwlConv", "cfg": c, "w0": [float(v) for v in K[:, u]]}})
       ctx.count(1, nontrivial_key=("pwl", str(c), tuple(K[:, u])))
@@ -173,7 +212,7 @@ def replay(ctx, path):
     elif call["path"] == "PwlConv":
       out = c04.run_constraint(tf, c, K)
       e2 = dict(ev)
-      e2["w"] = ints(out[:, 0])
+      e2["w"] = ints(out[:, 0], PDEN)
       events.append(e2)
     else:
       out = run_dykstra(tf, c, K, call["n"])
